@@ -178,6 +178,42 @@ pub fn run(ctx: &Ctx, rep: &mut Report) {
         let s = if *kw == "-threads" { "" } else { signs[r.usize(3)] };
         check(kw, unit, &vt, v, s, &format!("random:{}", i), rep);
     });
+    // notations other than plain decimal (fractions, separators, exponents, radix prefixes, SI / IEC / word
+    // units, doubled signs, non-ASCII digits) on every numeric primary and unit: the reference decides
+    // membership (e.g. `5m` is a time, not a size); an accepted non-member is a number read as another one
+    let nn = crate::gen::NOTATIONS.len() as u64;
+    let digits = ["1", "5", "10", "15", "100", "007", "0"];
+    par_cases(ctx, "notation", nc * nn, rep, |i, rep| {
+        let (kw, unit) = &combos[(i / nn) as usize];
+        let pat = crate::gen::NOTATIONS[(i % nn) as usize];
+        for (k, d) in digits.iter().enumerate() {
+            if k > 1 && (i + k as u64) % 3 != 0 {
+                continue;
+            }
+            let body = pat.replace("{}", d);
+            for (arg, quoted) in [(format!("{}{}", body, unit), false), (format!("{}{}", body, unit), true)] {
+                if arg.contains(' ') != quoted && arg.contains(' ') {
+                    continue; // a blank needs quotes to stay one word; quoted numerics are otherwise unspecified
+                }
+                if quoted && !arg.contains(' ') {
+                    continue;
+                }
+                rep.evaluations += 1;
+                let a = if quoted { format!("'{}'", arg) } else { arg.clone() };
+                let text = if *kw == "-threads" { format!("-threads {} -true", a) } else { format!("{} {}", kw, a) };
+                match compare(&text) {
+                    Cmp::Skip(_) => rep.skipped_unspecified += 1,
+                    Cmp::AgreeErr(_, _) => rep.count("other_notation_refused"),
+                    Cmp::AgreeOk(..) => rep.count("other_notation_is_a_member"),
+                    Cmp::Bad { kind, .. } if kind == "rejects-member" => rep.count("in_range_rejected"),
+                    Cmp::Bad { kind, what, detail } => {
+                        let k = if kind.starts_with("accepts-bad-argument") { "accepts-other-notation".to_string() } else { kind };
+                        rep.violation(&format!("C07:{}:{}", k, kw), &what, &format!("notation:{}", i), detail)
+                    }
+                }
+            }
+        }
+    });
     if ctx.only.is_none() {
         rep.floor("in-range and out-of-range values both observed", rep.get("in_range_tree_exact") > 100 && rep.get("out_of_range_or_malformed_refused") > 100);
         rep.floor("constants executed", rep.get("executed_constant_exact") > 100);
